@@ -18,6 +18,8 @@ from verif.sim import core
 
 PROPERTY = 'C14'
 ENGINE = 'fs-sim'
+ENV_VARIANTS = ['locale-C-ascii']
+ENV_N = 1500
 LEVEL = 'exploration'
 QUICK_S = 40
 THOROUGH_S = 420
